@@ -29,7 +29,7 @@ def impl_case(case):
     if kind == "merge":
         objs = [Location(*t) for t in case[1]]
         out = Location.merge_overlapping_locations(list(objs))
-        return [tup(o) for o in out], [tup(o) for o in objs]
+        return tuple(tup(o) for o in out), tuple(tup(o) for o in objs)
     if kind == "shift":
         a = Location(*case[1])
         return tup(a + case[2]), tup(a - case[2]), len(a) if a.end >= a.start else (a.end - a.start)
@@ -102,7 +102,7 @@ def oracle(case, out):
         union = set().union(*[idx(t) for t in ins]) if ins else set()
         if (set().union(*[idx(t) for t in res]) if res else set()) != union:
             return "union changed"
-        if sorted(res) != res:
+        if sorted(res) != list(res):
             return "result not sorted"
         for x, y in itertools.combinations(res, 2):
             if idx(x) & idx(y):
@@ -234,98 +234,17 @@ def nontrivial(case, out):
     return True
 
 
+CASE_TYPE = "case18"
+CHECKER = "check18"
+SHOW = "model18"
+RULE = ("exhaustive box of (start,end) pairs with strands, random large coordinates, random lists for merge; "
+        "non-trivial = spans intersect or touch (overlap), some inputs merged (merge), any (other ops); distinct by JSON text")
+
+
 def run(chk):
-    ok, log = (True, "") if getattr(chk, "no_build", False) else chk.build(PROP_FILES)
-    if not ok:
-        chk.l1_ok = False
-        chk.notes.append("L1 broken: " + log[-1500:])
-    cases, stats = gen_cases(chk.rng, chk.tier)
-    corpus = load_corpus()
-    cases = corpus + cases
-    outs = core.pool_map(run_impl, cases)
-    chk.coverage["evaluations"] = len(cases)
-    # L3 on every case
-    failing = []
-    for c, o in zip(cases, outs):
-        why = oracle(c, o)
-        if why:
-            failing.append((c, o, why))
-    groups = {}
-    for c, o, why in failing:
-        key = "%s: %s" % (c[0], why.split(":")[0])
-        groups.setdefault(key, (c, o, why))
-    for key, (c, o, why) in groups.items():
-        c2, o2 = shrink(c)
-        chk.violation(key, {"case": c2, "observed": o2, "why": why,
-                            "layer": "L3 direct oracle on the implementation"})
-    # L2 correspondence on the cases the implementation answered
-    okcases = [(c, o) for c, o in zip(cases, outs) if o[0] == "ok"]
-    if chk.l1_ok or True:
-        try:
-            terms = [coq_case(c, o) for c, o in okcases]
-            bad, shown = chk.coq_eval(IMPORTS, "case18", "check18", terms, show="model18")
-        except core.CoqEvalError as e:
-            bad, shown = [], {}
-            chk.l1_ok = False
-            chk.notes.append(str(e)[-1500:])
-        chk.coverage["disagreements_checked"] = len(bad)
-        seen = set()
-        for i in bad:
-            c, o = okcases[i]
-            why = oracle(c, o)
-            key = "correspondence %s" % c[0]
-            if key in seen:
-                continue
-            seen.add(key)
-            if why:
-                continue  # already reported by L3 with a failing input
-            # model and code disagree but the direct oracle accepts the output: search wider
-            chk.violation(key, {"case": c, "observed": o, "model": shown.get(i),
-                                "broken": "correspondence Harness/H18.check18 (model Loc.v vs Location.py)"},
-                          no_input=True)
-    if not chk.l1_ok and not chk.violations:
-        chk.violation("L1 obligations", {"broken": "coq build of %s" % PROP_FILES, "log": chk.notes[-1]}, no_input=True)
-    nt = set()
-    for c, o in zip(cases, outs):
-        if nontrivial(c, o):
-            nt.add(json.dumps(c))
-    chk.coverage["distinct_nontrivial"] = len(nt)
-    chk.coverage["rule"] = ("exhaustive box of (start,end) pairs in [%s) with strands, random large coordinates, random lists for merge; "
-                            "non-trivial = spans intersect or touch (overlap), some inputs merged (merge), any (other ops); distinct by JSON text"
-                            % ("-1,6" if chk.tier == "quick" else "-2,8"))
+    core.standard_run(chk, __import__("harness.c18", fromlist=["x"]))
     chk.coverage["exhaustive"] = True
-    chk.coverage["distribution"] = dict(stats, **{k: sum(1 for c in cases if c[0] == k) for k in set(c[0] for c in cases)})
-    chk.add_samples([{"case": c, "impl": o} for c, o in list(zip(cases, outs))[:3] + list(zip(cases, outs))[-3:]])
-
-
-def shrink(case):
-    return case, run_impl(case)
-
-
-def load_corpus():
-    import os
-    p = os.path.join(core.VERIF, "corpus", "C18.json")
-    if os.path.exists(p):
-        return [tuple(c) if not isinstance(c, tuple) else c for c in map(_detuple, json.load(open(p)))]
-    return []
-
-
-def _detuple(c):
-    def conv(x):
-        if isinstance(x, list) and x and all(isinstance(y, int) for y in x) and len(x) in (2, 3):
-            return tuple(x)
-        if isinstance(x, list):
-            return [conv(y) for y in x]
-        return x
-    return tuple(conv(x) for x in c)
 
 
 def replay(path):
-    d = json.load(open(path))
-    case = _detuple(d["case"])
-    out = run_impl(case)
-    why = oracle(case, out)
-    print("case:", case)
-    print("implementation output:", out)
-    print("oracle:", why or "property holds on this case")
-    return 1 if why else 0
+    return core.standard_replay(__import__("harness.c18", fromlist=["x"]), path)
